@@ -1,0 +1,9 @@
+//go:build verif
+
+package v1beta1
+
+import "github.com/kubeflow/katib/pkg/util/v1beta1/katibclient"
+
+func NewKatibUIHandlerForVerif(c katibclient.Client, dbManagerAddr string) *KatibUIHandler {
+	return &KatibUIHandler{katibClient: c, dbManagerAddr: dbManagerAddr}
+}
